@@ -8,7 +8,7 @@ from props.base import tup, norm_key
 UNKNOWN = 99
 
 
-def state_case(rnd, removal=None, max_calls=10, family=None, malformed=0.0, isolated=True):
+def state_case(rnd, removal=None, max_calls=10, family=None, malformed=0.07, isolated=True):
     directed = rnd.random() < 0.5
     if removal is None:
         removal = rnd.random() < 0.85
